@@ -30,9 +30,9 @@ var cacheCases = []int{0, -1, -7}
 // cacheCaseCount is the number of corpus cases of a tier (thorough adds the organic one).
 func cacheCaseCount(thorough bool) int {
 	if thorough {
-		return len(cacheCases) + 3
+		return len(cacheCases) + 4
 	}
-	return len(cacheCases) + 2 // + the digest-valued states + the empty-valued keys
+	return len(cacheCases) + 3 // + the digest-valued states + the empty-valued keys + the empty blocks
 }
 
 func runCacheCase(o *emitter, u *Universe, ci int) {
@@ -44,7 +44,11 @@ func runCacheCase(o *emitter, u *Universe, ci int) {
 		runEmptyValueCase(o, u)
 		return
 	}
-	if ci > len(cacheCases)+1 {
+	if ci == len(cacheCases)+2 {
+		runEmptyBlockCase(o, u)
+		return
+	}
+	if ci > len(cacheCases)+2 {
 		runCacheOrganic(o)
 		return
 	}
@@ -451,4 +455,182 @@ func runEmptyValueCase(o *emitter, u *Universe) {
 			o.Fail(sig, fmt.Sprintf("SMT, commit %d: root %x, canonical commitment %x", bi+1, got, want), hist)
 		}
 	}
+}
+
+// runEmptyBlockCase (permanent corpus `empty-blocks`): a block may carry no state operation at all; Commit() of such a
+// block commits the root of the unchanged tree — on a fresh database the root of the canonical EMPTY tree (the two
+// sentinels), with or without a Root() call before the Commit(), exactly like every other history that ends in the empty
+// state (insert then delete in two blocks / in one block).
+//
+//	C08:root-not-canonical:empty-block      root committed for an empty block != canonical commitment of the state
+//	C08:history-dependence:empty-block      histories ending in the same state, one of them through empty blocks, differ
+//
+// Through the real Store, and through the real SMT (Commit / CommitParallel of an empty batch).
+func runEmptyBlockCase(o *emitter, u *Universe) {
+	var hist []string
+	defer func() {
+		if p := recover(); p != nil {
+			o.Fail("C08:panic-in-real-code", fmt.Sprintf("empty-blocks: %v | %s", p, shortStack()), hist)
+		}
+	}()
+	o.Case("corpus empty-blocks")
+	var k []UKey
+	for i := 200; len(k) < 3; i++ {
+		if x := u.Keys[i]; !u.Reserved(x.Bits) && !u.Border[x.Bits] {
+			k = append(k, x)
+		}
+	}
+	tag := func(a, b []byte) string {
+		if bytes.Equal(a, b) {
+			return "same"
+		}
+		return "differs"
+	}
+	// a history = blocks of steps: "s<i>" set k[i], "d<i>" delete k[i], "root" Root() before the Commit(), "reopen"
+	run := func(label string, blocks [][]string) []byte {
+		sti, err := store.NewStoreInMemory(lib.NewNullLogger())
+		if err != nil {
+			panic(err)
+		}
+		st := sti.(*store.Store)
+		defer func() { st.DB().Close() }()
+		hist = append(hist, "store   # "+label)
+		o.Op("store", "ok")
+		state := map[string][]byte{}
+		var root []byte
+		for bi, blk := range blocks {
+			writes := 0
+			for _, step := range blk {
+				switch {
+				case step == "root":
+					o.Try("root")
+					got, e := st.Root()
+					if e != nil {
+						panic(e)
+					}
+					want, _ := RefRoot(refMap(state))
+					hist = append(hist, "root")
+					o.Op("root", "root "+drv.Hex(got)+" l0 "+tag(got, want))
+				case step == "reopen":
+					st.Discard()
+					st2, e := store.NewStoreWithDB(lib.DefaultConfig(), st.DB(), nil, lib.NewNullLogger())
+					if e != nil {
+						panic(e)
+					}
+					st = st2
+					hist = append(hist, "reopen")
+					o.Op("reopen", fmt.Sprintf("version %d", st.Version()))
+				case step[0] == 's':
+					x := k[int(step[1]-'0')]
+					val := []byte("v" + step[1:])
+					if e := st.Set(x.User, val); e != nil {
+						panic(e)
+					}
+					state[x.Bits] = val
+					writes++
+					line := "set " + drv.Hex(x.User) + " " + drv.Hex(val)
+					hist = append(hist, line)
+					o.Op(line, "ok")
+				default:
+					x := k[int(step[1]-'0')]
+					if e := st.Delete(x.User); e != nil {
+						panic(e)
+					}
+					delete(state, x.Bits)
+					writes++
+					hist = append(hist, "del "+drv.Hex(x.User))
+					o.Op("del "+drv.Hex(x.User), "ok")
+				}
+			}
+			if len(blk) > 0 && blk[len(blk)-1] == "reopen" {
+				continue // a pseudo block: only re-opens the store
+			}
+			o.Try("commit")
+			r, e := st.Commit()
+			if e != nil {
+				panic(e)
+			}
+			root = r
+			want, _ := RefRoot(refMap(state))
+			hist = append(hist, "commit")
+			o.Op("commit", fmt.Sprintf("root %s l0 %s version %d", drv.Hex(r), tag(r, want), st.Version()))
+			o.Count("emptyblock:store-block")
+			if !bytes.Equal(r, want) {
+				sig := "C08:root-not-canonical"
+				if writes == 0 {
+					sig += ":empty-block"
+				}
+				o.Fail(sig, fmt.Sprintf("Store, %s, block %d (%d writes): committed root %x, canonical commitment of the state %x", label, bi+1, writes, r, want), hist)
+			}
+		}
+		return root
+	}
+	histories := []struct {
+		label  string
+		blocks [][]string
+	}{
+		{"empty first blocks", [][]string{{}, {}, {}}},
+		{"Root() then Commit() of empty first blocks", [][]string{{"root"}, {"root"}, {}}},
+		{"insert, delete in the next block, empty blocks", [][]string{{"s0"}, {"d0"}, {}, {"root"}}},
+		{"insert and delete in one block", [][]string{{"s0", "s1", "d0", "d1"}, {}}},
+		{"empty first blocks, re-opened, insert, delete", [][]string{{}, {"reopen"}, {}, {"s2"}, {}, {"d2"}, {"reopen"}, {}}},
+		{"delete of an absent key only", [][]string{{"d1"}, {}}},
+	}
+	var first []byte
+	for i, h := range histories {
+		got := run(h.label, h.blocks)
+		if i == 0 {
+			first = got
+		} else if !bytes.Equal(got, first) {
+			o.Fail("C08:history-dependence:empty-block",
+				fmt.Sprintf("Store: two histories ending in the empty state: %q commits %x, %q commits %x", histories[0].label, first, h.label, got), hist)
+		}
+	}
+	// empty blocks between non-empty states: the root does not move
+	run("empty blocks on a non-empty state", [][]string{{"s0", "s1"}, {}, {"root"}, {"d0"}, {}, {"reopen"}, {}})
+	// ---- the real SMT: Commit / CommitParallel of an empty batch, on the fresh tree and on a non-empty one
+	t, err := newTree(160, false)
+	if err != nil {
+		panic(err)
+	}
+	defer t.close()
+	o.Op("new 160", fmt.Sprintf("root %s nodes 3 l0 same", drv.Hex(t.smt.Root())))
+	for i, ops := range [][]op{nil, nil, {{k: k[0], val: []byte("v0")}}, nil, nil, {{k: k[0]}}, nil, nil} {
+		parallel := i%2 == 1
+		mode := "seq"
+		if parallel {
+			mode = "par"
+		}
+		line := opLine(mode, ops)
+		hist = append(hist, line)
+		o.Try(line)
+		if res := t.commit(parallel, ops); res != "ok" {
+			o.Op(line, res)
+			o.Fail("C08:commit-failed", "empty-blocks: "+res, hist)
+			return
+		}
+		applyOracle(t.m, ops)
+		got := t.smt.Root()
+		tab, _ := t.scan()
+		want, _ := RefRoot(t.m)
+		o.Op(line, fmt.Sprintf("root %s nodes %d l0 %s", drv.Hex(got), len(tab), tag(got, want)))
+		o.Count("emptyblock:smt-commit")
+		if !bytes.Equal(got, want) {
+			sig := "C08:root-not-canonical"
+			if len(ops) == 0 {
+				sig += ":empty-block"
+			}
+			o.Fail(sig, fmt.Sprintf("SMT, commit %d (%s, %d ops): root %x, canonical commitment %x", i+1, mode, len(ops), got, want), hist)
+		}
+	}
+}
+
+// refMap: the reference's view (tree key bits -> leaf value) of a state given as tree key bits -> stored value.
+func refMap(state map[string][]byte) map[string][]byte {
+	m := Sentinels(160)
+	for b, v := range state {
+		h := sha256.Sum256(v)
+		m[b] = h[:]
+	}
+	return m
 }
